@@ -29,6 +29,7 @@ import (
 	"strconv"
 	"strings"
 	"sync"
+	"sync/atomic"
 	"syscall"
 	"time"
 )
@@ -606,7 +607,9 @@ func doCheck(cfg tierCfg) int {
 	start := time.Now()
 	seed := seedFromEnv()
 	fmt.Printf("check C18 tier=%s VERIF_SEED=%d\n", cfg.name, seed)
+	var capFired atomic.Bool
 	hard := time.AfterFunc(cfg.hardCap, func() {
+		capFired.Store(true)
 		fmt.Println("HARNESS-TROUBLE: hard wall-clock cap reached")
 		cleanup()
 		os.Exit(2)
@@ -1108,6 +1111,9 @@ func doCheck(cfg tierCfg) int {
 	}
 
 	// -- evidence -------------------------------------------------------------------------------------------------------
+	if capFired.Load() {
+		select {} // the cap handler is killing the children and removing the scratch copy: no verdict from half a run
+	}
 	distinct, overlappedDistinct := countDistinct(append(sideFiles, selfSides...))
 	wall := time.Since(start).Seconds()
 	unknownViol := 0
